@@ -204,9 +204,9 @@ pub fn check_bytes(bytes: &[u8]) -> CaseResult {
 fn shaped() -> impl Strategy<Value = Case> {
     // Start from a consistent message of n values, then perturb.
     (
-        0usize..13,
-        proptest::collection::vec(prop_oneof![3 => Just(0u16), 4 => 1u16..6, 1 => 1u16..40], 13),
-        proptest::collection::vec(prop_oneof![5 => 0u32..5, 1 => any::<u32>()], 13),
+        prop_oneof![12 => 0usize..13, 1 => 13usize..200],
+        proptest::collection::vec(prop_oneof![3 => Just(0u16), 4 => 1u16..6, 1 => 1u16..40], 200),
+        proptest::collection::vec(prop_oneof![5 => 0u32..5, 2 => 0u32..64, 1 => any::<u32>()], 200),
         0u8..16,
         any::<u32>(),
         proptest::option::weighted(0.25, crate::engine::bytespec::cut()),
@@ -353,7 +353,7 @@ fn replay(_ctx: &Ctx, _group: &str, case: &Value) -> CaseResult {
 pub fn def() -> PropDef {
     PropDef {
         id: "C12",
-        rule: "shaped: start from a consistent header for N in 0..12 values (lengths 0 common, tags from a small pool so that equal tags occur) and apply one perturbation: swap two offsets, swap two tags, put the last offset at / just beyond the payload, shorten or lengthen the payload, declare N+1/N+2/N-1 or a huge N (2^28..2^32-1), an offset near u32::MAX, all tags equal; optionally truncate at any length. raw: short arbitrary byte strings. truncate-every-length: every prefix of five valid messages. small-word-strings: every string of up to 6 (8) little-endian words over {0,1,2,3,u32::MAX} followed by 0..3 bytes. Oracle: new never panics and accepts iff an independent validator does; on accepted views no accessor panics for indices 0..N+2 and usize::MAX-1, usize::MAX; values for 0..N tile the bytes after the 8N-byte header (checked by address); get(i), iter().nth(i), (tags()[i], get_value(i)) agree and equal the reference parse; every index >= N gives None from get, get_value and iter; find / find_tag agree with the stored tags; tags_match_exactly is true for the tags and false for a longer, shorter or perturbed list. Non-trivial: accepted with N in {0,1} or with equal adjacent tags or offsets, or rejected by a check other than the 4-byte minimum. Distinct: hash of the serialised case / by enumeration.",
+        rule: "shaped: start from a consistent header for N in 0..12 values (N up to 199 in one case out of 13) (lengths 0 common, tags from a small pool so that equal tags occur) and apply one perturbation: swap two offsets, swap two tags, put the last offset at / just beyond the payload, shorten or lengthen the payload, declare N+1/N+2/N-1 or a huge N (2^28..2^32-1), an offset near u32::MAX, all tags equal; optionally truncate at any length. raw: short arbitrary byte strings. truncate-every-length: every prefix of five valid messages. small-word-strings: every string of up to 6 (8) little-endian words over {0,1,2,3,u32::MAX} followed by 0..3 bytes. Oracle: new never panics and accepts iff an independent validator does; on accepted views no accessor panics for indices 0..N+2 and usize::MAX-1, usize::MAX; values for 0..N tile the bytes after the 8N-byte header (checked by address); get(i), iter().nth(i), (tags()[i], get_value(i)) agree and equal the reference parse; every index >= N gives None from get, get_value and iter; find / find_tag agree with the stored tags; tags_match_exactly is true for the tags and false for a longer, shorter or perturbed list. Non-trivial: accepted with N in {0,1} or with equal adjacent tags or offsets, or rejected by a check other than the 4-byte minimum. Distinct: hash of the serialised case / by enumeration.",
         assumptions: &["refimpl/tlv_ref.rs is the reference validator (written from the crate documentation, checked against its example)"],
         exhaustive_note: Some("truncate-every-length and small-word-strings: complete enumerations"),
         shards: |t: Tier| t.pick(8, 16),
